@@ -4,9 +4,10 @@ import runlib as R
 import session_common as _sc
 
 ID = 'C05'
-COQ_TARGETS = ['Props/Properties_C05.vo']
-PROPS_FILES = ['Props/Properties_C05.v']
-THEOREMS = ['C05_line_shape', 'C05_schedule_independent_clean', 'C05_no_smuggling_refuted', 'C05_schedule_independent_refuted']
+COQ_TARGETS = ['Props/Properties_C05.vo', 'Props/Properties_C05_data.vo']
+PROPS_FILES = ['Props/Properties_C05.v', 'Props/Properties_C05_data.v']
+THEOREMS = ['C05_line_shape', 'C05_schedule_independent_clean', 'C05_no_smuggling_refuted', 'C05_schedule_independent_refuted',
+            'C05_data_ends_at_lone_dot', 'C05_skip_ends_at_lone_dot', 'C05_skip_after_write_error']
 ENGINES = [dict(name='netio', c_sources=['netio_h.c'], extract='Extract/Extract_netio.v', driver='netio_driver.ml',
                 accepts=lambda c: c.startswith('bb ')),
            _sc.ENGINE]      # whole-program Qsmtpd: where the DATA command sees the end of the message (smtp_data on top of net_read)
@@ -36,10 +37,12 @@ ASSUMPTIONS = [
 LEVEL_TEXT = ('Coq theorem for all streams and all read schedules: every line handed out by the reader is a piece of the stream directly followed by CRLF, '
               'free of CR/LF, at most 999 octets (C05_line_shape); for every stream in which CR/LF occur only as CRLF the item sequence equals a schedule-free specification for ALL segmentations (C05_schedule_independent_clean). The stronger wording of the property (no resynchronisation inside a malformed line; '
               'schedule independence for all streams) is refuted for the faithful model by machine-checked witnesses that reproduce on the C '
-              '(known findings F-C05-2, F-C05-3); every C run is additionally judged by the extracted boolean specification.')
+              '(known findings F-C05-2, F-C05-3); every C run is additionally judged by the extracted boolean specification. DATA level (model of smtp_data on top of that reader): '
+              'an accepted message consumed exactly its lines, none the lone dot, followed by ".CRLF" (C05_data_ends_at_lone_dot); the skipping of a rejected message ends exactly behind the '
+              'first successfully read line that is the lone dot, never at another line or a read error (C05_skip_ends_at_lone_dot, C05_skip_after_write_error); tied to the binary by whole-program sessions.')
 LEVEL_NOTE = ('Schedule independence is proved for clean streams (CR and LF only as CRLF) of any line lengths; for streams with stray CR/LF it is refuted with class (known findings) and two schedules per stream are compared in the correspondence run. '
               'Trusted: kernel, translator, extraction, harness stub for read(), generator quality.')
-TECHNIQUE = 'Coq proof (suffix invariant over net_read steps, all schedules); refutation witnesses by vm_compute; model-vs-C differential run with two schedules per stream'
+TECHNIQUE = 'Coq proof (suffix invariant over net_read steps, all schedules; induction over the skip loops of smtp_data); refutation witnesses by vm_compute; model-vs-C differential run with two schedules per stream and whole-program sessions'
 DESIGN_REF = 'DESIGN.md section 5, C05'
 
 
